@@ -23,7 +23,26 @@ def run_property(prop: str, tier: str, P=None, quiet=False):
     if P is None:
         P = load_program()
     ctx = report.Context(prop, P, tier)
-    mod.run(ctx)
+    try:
+        mod.run(ctx)
+    except AnalysisError as e:
+        # A rule could not find its anchor. That is never a pass - but when the reason is visible and is itself a violation (a cache
+        # that the memo analysis refuses to eliminate because it is unsound leaves the function in a shape no rule knows), say so:
+        # the memo rule runs last in every property, so it is run here if the failing rule came first.  With an unlisted finding in
+        # hand the check reports it (exit 1); without one the analysis error stands (exit 2).
+        rid = 'R%s.M' % prop[1:]
+        if not any(getattr(r_, 'rid', None) == rid for r_ in getattr(ctx, 'rules', [])):
+            try:
+                from .rules import memo_rules as M
+                M.memo_sound(ctx, rid)
+            except AnalysisError:
+                pass
+        known = report.load_known()
+        if not any(report.match_known(f, known) is None for f in ctx.findings()):
+            raise
+        if not quiet:
+            print('NOTE property=%s part of the analysis could not proceed (%s); the findings below were established before that' % (prop, e))
+        ctx.partial = str(e)
     return ctx, mod
 
 
